@@ -371,7 +371,7 @@ func (e *Eng) stringEq(a, b Val) string {
 	if !e.declared[key] {
 		e.declared[key] = true
 		same := and(eq(a.C[0], b.C[0]), eq(a.C[1], b.C[1]), eq(a.C[2], b.C[2]))
-		e.pre.asserts.WriteString("(assert (and (=> " + t + " (= " + a.C[2] + " " + b.C[2] + ")) (=> " + same + " " + t + ")))\n")
+		e.pre.asserts.WriteGlobal("(assert (and (=> " + t + " (= " + a.C[2] + " " + b.C[2] + ")) (=> " + same + " " + t + ")))\n")
 	}
 	return t
 }
@@ -419,7 +419,7 @@ func (e *Eng) makeIface(v Val) string {
 			e.declFun(pn, "(Int) "+s)
 			facts = append(facts, eq(sx(pn, t), v.C[i]))
 		}
-		e.pre.asserts.WriteString("(assert " + and(facts...) + ")\n")
+		e.pre.asserts.WriteGlobal("(assert " + and(facts...) + ")\n")
 	}
 	return t
 }
@@ -457,12 +457,12 @@ func (e *Eng) globalValue(st *State, o *types.Var) Val {
 					e.globalIDs["!const:"+name] = id
 				}
 				e.declFun("gconst.id", "(Int) Int")
-				e.pre.asserts.WriteString(fmt.Sprintf("(assert (and (< %s 0) (= (gconst.id %s) %d)))\n", c, c, id))
+				e.pre.asserts.WriteGlobal(fmt.Sprintf("(assert (and (< %s 0) (= (gconst.id %s) %d)))\n", c, c, id))
 				e.globalInitFacts(o, c)
 				if _, isI := t.Underlying().(*types.Interface); isI && o.Pkg() != e.pkg.Pkg {
 					// dynamic type of an interface-valued variable of another
 					// package: an (unexported) type this package cannot construct
-					e.pre.asserts.WriteString("(assert (< " + e.itype(c) + " 0))\n")
+					e.pre.asserts.WriteGlobal("(assert (< " + e.itype(c) + " 0))\n")
 				}
 			}
 			return Val{T: t, C: []string{c}}
@@ -564,7 +564,7 @@ func (e *Eng) globalInitFacts(o *types.Var, c string) {
 			// &CloseError{Code: k, Text: ...} / &netError{...}: record type tag and int fields
 			v := s.Val
 			if mi, ok := v.(*ssa.MakeInterface); ok {
-				e.pre.asserts.WriteString(fmt.Sprintf("(assert (= %s %d))\n", e.itype(c), e.typeTag(mi.X.Type())))
+				e.pre.asserts.WriteGlobal(fmt.Sprintf("(assert (= %s %d))\n", e.itype(c), e.typeTag(mi.X.Type())))
 				if al, ok := mi.X.(*ssa.Alloc); ok {
 					e.initStructFacts(al, c, mi.X.Type())
 				}
@@ -582,7 +582,7 @@ func (e *Eng) initStructFacts(al *ssa.Alloc, iface string, pt types.Type) {
 		return
 	}
 	sn := structName(pt)
-	e.pre.asserts.WriteString("(assert (< " + ref + " 0))\n")
+	e.pre.asserts.WriteGlobal("(assert (< " + ref + " 0))\n")
 	for _, r := range *al.Referrers() {
 		fa, ok := r.(*ssa.FieldAddr)
 		if !ok {
@@ -601,7 +601,7 @@ func (e *Eng) initStructFacts(al *ssa.Alloc, iface string, pt types.Type) {
 					e.declared[h0] = true
 					e.pre.decls.WriteString(fmt.Sprintf("(declare-const %s %s)\n", h0, hs[0].sort))
 				}
-				e.pre.asserts.WriteString("(assert (= (select " + h0 + " " + ref + ") " + e.intConst(st.Field(fa.Field).Type(), cv.Value) + "))\n")
+				e.pre.asserts.WriteGlobal("(assert (= (select " + h0 + " " + ref + ") " + e.intConst(st.Field(fa.Field).Type(), cv.Value) + "))\n")
 			}
 		}
 	}
